@@ -48,7 +48,7 @@ def xfunc(*args, func=max, check=is_number, convert=None, default=0,
 
 def _xaverage(v):
     if v:
-        return sum(v) / len(v)
+        return convert_nan(sum(v) / len(v))
     return Error.errors['#DIV/0!']
 
 
@@ -65,7 +65,8 @@ def xcorrel(arr1, arr2):
         arr1, arr2 = _parse_yxp(arr1, arr2)
     except FoundError as ex:
         return ex.err
-    return np.corrcoef(arr1, arr2)[0, 1]
+    with np.errstate(all='ignore'):
+        return convert_nan(np.corrcoef(arr1, arr2)[0, 1], Error.errors['#DIV/0!'])
 
 
 FUNCTIONS['CORREL'] = wrap_func(xcorrel)
@@ -150,7 +151,7 @@ def xslope(yp, xp):
         a, b = _slope_coeff(*map(np.array, _parse_yxp(yp, xp)))
     except FoundError as ex:
         return ex.err
-    return b
+    return convert_nan(b)
 
 
 FUNCTIONS['SLOPE'] = wrap_func(xslope)
